@@ -249,3 +249,77 @@ func FaultAlphabet(full bool) []ops.Op {
 	}
 	return a
 }
+
+// MarkerAlphabet: alphabet A over names, contents and link targets that embed the C09 marker.
+func MarkerAlphabet() []ops.Op {
+	d := "/" + Marker + "-dir"
+	f := "/" + Marker + "-file"
+	df := d + "/" + Marker + "-inner"
+	a := []ops.Op{
+		{K: "mkdir", P: d},
+		{K: "put", P: f, C: "content " + Marker + " content"},
+		{K: "put", P: df, C: Marker},
+		{K: "put", P: f, C: ""},
+		{K: "remove", P: f},
+		{K: "removeall", P: d},
+		{K: "rename", P: f, Q: df},
+		{K: "rename", P: d, Q: "/" + Marker + "-moved"},
+		{K: "chmod", P: f, N: 0o600},
+		{K: "chown", P: f},
+		{K: "chtimes", P: f},
+		{K: "chown", P: d},
+		{K: "symlink", P: f, Q: "/" + Marker + "-link"},
+	}
+	return a
+}
+
+// ROAlphabet: every mutating and non-mutating method, against a populated tree (/a dir, /a/f, /f files).
+func ROAlphabet() []ops.Op {
+	a := []ops.Op{
+		{K: "mkdir", P: "/new"}, {K: "mkdir", P: "/a"}, {K: "mkdirall", P: "/x/y"},
+		{K: "remove", P: "/f"}, {K: "remove", P: "/nope"}, {K: "removeall", P: "/a"}, {K: "removeall", P: "/nope"},
+		{K: "rename", P: "/f", Q: "/g"}, {K: "rename", P: "/nope", Q: "/g"},
+		{K: "chmod", P: "/f", N: 0o600}, {K: "chown", P: "/f"}, {K: "chtimes", P: "/f"},
+		{K: "symlink", P: "/f", Q: "/l"}, {K: "create", P: "/new"}, {K: "create", P: "/f"},
+		{K: "put", P: "/f", C: "changed"}, {K: "put", P: "/new", C: "x"},
+		{K: "stat", P: "/f"}, {K: "stat", P: "/a"}, {K: "stat", P: "/nope"}, {K: "list", P: "/"}, {K: "list", P: "/a"},
+		{K: "read", P: "/f"}, {K: "read", P: "/a/f"}, {K: "lstat", P: "/f"}, {K: "readlink", P: "/f"},
+	}
+	for _, p := range []string{"/f", "/new"} {
+		for _, acc := range []int{os.O_RDONLY, os.O_WRONLY, os.O_RDWR} {
+			for mask := 0; mask < 16; mask++ {
+				fl := acc
+				if mask&1 != 0 {
+					fl |= os.O_CREATE
+				}
+				if mask&2 != 0 {
+					fl |= os.O_EXCL
+				}
+				if mask&4 != 0 {
+					fl |= os.O_TRUNC
+				}
+				if mask&8 != 0 {
+					fl |= os.O_APPEND
+				}
+				a = append(a, ops.Op{K: "openw", P: p, N: fl}, ops.Op{K: "openw", P: p, N: fl, C: "AB"})
+			}
+		}
+	}
+	for _, fl := range []int{os.O_RDONLY, os.O_RDWR, os.O_WRONLY, os.O_RDWR | os.O_APPEND | os.O_TRUNC} {
+		a = append(a, ops.Op{K: "hopen", P: "/f", N: fl, H: 0})
+	}
+	a = append(a,
+		ops.Op{K: "hwrite", H: 0, C: "Q"}, ops.Op{K: "hwritestring", H: 0, C: "Q"}, ops.Op{K: "hwriteat", H: 0, C: "Q", N: 1},
+		ops.Op{K: "htrunc", H: 0, N: 0}, ops.Op{K: "htrunc", H: 0, N: 9}, ops.Op{K: "hsync", H: 0}, ops.Op{K: "hread", H: 0, N: 2}, ops.Op{K: "hclose", H: 0},
+	)
+	return a
+}
+
+// ROSetups: the populated tapes the read-only instance is opened over.
+func ROSetups() [][]ops.Op {
+	return [][]ops.Op{
+		{{K: "mkdir", P: "/a"}, {K: "put", P: "/a/f", C: "inner"}, {K: "put", P: "/f", C: "T600:2"}},
+		{{K: "mkdir", P: "/a"}, {K: "put", P: "/f", C: ""}, {K: "put", P: "/a/f", C: "x"}, {K: "rename", P: "/a/f", Q: "/a/g"}, {K: "put", P: "/a/f", C: "again"}, {K: "chmod", P: "/f", N: 0o400}},
+		{},
+	}
+}
